@@ -83,6 +83,23 @@ def _norm(x):
 # variant, a coroutine function for the async one, as the documentation requires) that records the event names; the
 # two variants must emit the same events in the same order.  Installed by rebinding Request.__init__ in this process.
 _TRACE = [None]          # None | (mode, sink)
+_POOLS: list = []        # pools created while a DiffHarness runs: the trace callback looks at them, as a logging callback would
+
+
+def _install_pool_registry():
+    import httpcore
+    for cls in (httpcore.ConnectionPool, httpcore.AsyncConnectionPool):
+        if getattr(cls.__init__, "_mc_reg", False):
+            continue
+
+        def make(orig):
+            def init(self, *a, **kw):
+                orig(self, *a, **kw)
+                if _TRACE[0] is not None:
+                    _POOLS.append(self)
+            init._mc_reg = True
+            return init
+        cls.__init__ = make(cls.__init__)
 
 
 def _install_trace_seam():
@@ -99,7 +116,9 @@ def _install_trace_seam():
 
             def note(name, info):
                 exc = info.get("exception") if isinstance(info, dict) else None
-                sink.append((name, type(exc).__name__ if exc is not None else None))
+                # a callback that logs the state of the pool (repr() takes the pool's own lock in the sync variant)
+                seen = [repr(p_).split("[", 1)[-1] for p_ in _POOLS]
+                sink.append((name, type(exc).__name__ if exc is not None else None, seen))
             if mode == "sync":
                 def sync_trace(name, info):
                     note(name, info)
@@ -128,12 +147,15 @@ class DiffHarness:
 
     def run(self, chooser) -> Execution:
         _install_trace_seam()
+        _install_pool_registry()
         tr1, tr2 = [], []
+        del _POOLS[:]
         _TRACE[0] = ("sync", tr1)
         try:
             ex1 = self.a.run(chooser)
         finally:
             _TRACE[0] = None
+            del _POOLS[:]
         choices = [p[2] for p in chooser.points]
         labels = [(p[0], p[1]) for p in chooser.points]
         out = Execution()
@@ -150,6 +172,7 @@ class DiffHarness:
             return out
         finally:
             _TRACE[0] = None
+            del _POOLS[:]
         if len(ch2.points) != len(choices):
             out.violations.append(Violation("C18.choice-points", f"sync made {len(choices)} environment choices, async {len(ch2.points)} | {self.name}", dict(sig, kind="choice-points")))
             return out
@@ -220,7 +243,40 @@ def extra_diff(tier):
     return out
 
 
+def backend_differential(tier):
+    """The real SyncBackend against the real AnyIOBackend and TrioBackend (over the OS-level fakes): for the same request history and
+    timeout configuration the OS-level operations, the limit in effect at each of them and the outcome must be the same."""
+    from . import backends
+    out, n = [], 0
+    cts = ["h11", "h11tls", "h2alpn", "tunnel"] if tier == "quick" else list(scen.CONN_TYPES)
+    for ct in cts:
+        for tcfg in ("all", "connect-only", "read-only", "none"):
+            for method, warm in (("GET", False), ("POST", True)):
+                runs = {}
+                for rt in backends.RUNTIMES:
+                    r = engine.run_once(make_spec("mc.props.backends", "BackendHarness", runtime=rt, ct=ct, method=method, warm=warm, timeouts=tcfg),
+                                        [], want_fp=False, keep_trace=True)
+                    n += 1
+                    if "error" in r:
+                        raise engine.MachineryError(f"backend differential: {r['error']}")
+                    ops = [(t.get("op"), t.get("layer"), (t.get("args") or {}).get("timeout")) for t in r["trace"]
+                           if isinstance(t, dict) and t.get("op") in ("connect_tcp", "start_tls", "read", "write", "close")]
+                    runs[rt] = (ops, r["outcome"])
+                for rt in ("anyio", "trio"):
+                    if runs[rt] != runs["sync"]:
+                        a, b = runs["sync"][0], runs[rt][0]
+                        i = next((i for i, (x, y) in enumerate(zip(a, b)) if x != y), min(len(a), len(b)))
+                        out.append({"oracle": "C18.backend-ledger",
+                                    "message": (f"sync and {rt} backends differ for ct={ct} timeouts={tcfg} method={method} warm={warm}: at OS-level operation #{i} "
+                                                f"(kind, layer, limit in effect) sync={a[i] if i < len(a) else None} {rt}={b[i] if i < len(b) else None}; "
+                                                f"outcomes sync={runs['sync'][1]} {rt}={runs[rt][1]}"),
+                                    "signature": {"harness": "backend-diff", "kind": "backend-ledger", "other": rt}, "case": {"backend_diff": True}})
+    return out, n
+
+
 def replay_case(case):
+    if case.get("backend_diff"):
+        return backend_differential("quick")[0]
     v, _ = translation_validation()
     return v
 
@@ -230,6 +286,8 @@ def check(tier="quick", seed=0, workers=None, only=None):
     specs = common.filt(diff_specs(tier), only)
     st = engine.explore_many(specs, workers=workers, bound=2, seed=seed, max_violations=100, max_execs=200000)
     viols = tv + common.collect(st, ("C18",))
+    bd, bd_n = backend_differential(tier) if not only else ([], 0)
+    viols += bd
     # the trace seam must be in effect: one plain execution has to record events on both sides
     probe = engine.run_once(make_spec(MOD, "DiffHarness", hmod="mc.props.seqfault", cls="SeqFaultHarness",
                                       params=dict(ct="tunnel", method="GET", warm=False, consume="request")), [], want_fp=False)
@@ -238,13 +296,14 @@ def check(tier="quick", seed=0, workers=None, only=None):
     cov = evidence.stats_coverage(
         st,
         rule=("(a) every line of every file under httpcore/_async translated in memory with scripts/unasync.py and compared with its _sync twin; "
+              "(c) the real sync backend against the real anyio and trio backends over OS-level fakes: same operations and limits for 4 timeout configurations; "
               "(b) each scenario explored with deviation bound 2 on the sync classes, every execution re-run on the async classes with the same choice sequence: "
               "ledgers, outcomes, pool states, property verdicts and the sequence of `trace` extension events (every request carries a recording trace callback, "
               "plain function / coroutine function) must agree; "
               "non-trivial = outcome class of an execution with an injected fault or a cut"),
         extra={"programs": tinfo["files"], "disagreements_checked": tinfo["lines"], "translation_samples": tinfo["samples"],
                "differential_scenarios": len(specs), "differential_executions_pairs": st.evaluations,
-               "trace_events_in_probe_execution": probe["notes"].get("trace_events")})
+               "trace_events_in_probe_execution": probe["notes"].get("trace_events"), "backend_differential_runs": bd_n})
     cov["samples"] = (tinfo["samples"] + cov["samples"])[:8]
     return {"level": "translation_validation", "coverage": cov, "violations": viols,
             "assumptions": ["the translator is scripts/unasync.py as found in /repo; hand-written pairs (_synchronization.py primitives, mock backend) are outside (a) and exercised by (b) and C08/C07 only"]}
